@@ -10,6 +10,7 @@ import (
 	"net"
 	"net/http"
 	"strconv"
+	"strings"
 	"sync"
 	"sync/atomic"
 	"time"
@@ -82,6 +83,21 @@ func buildServer(limit int64, defaultList bool, enabled []string) (*server, *con
 	cfg.MaxRequestBodySize = limit
 	if !defaultList {
 		cfg.CompressionAlgorithms = append([]string{}, enabled...) // non-nil, possibly empty
+	}
+	// A neighbour: another server of the same process, built first, whose owner replaced every built-in decoder
+	// with one of its own (ToServer's WithDecoder option).  It is never started; what one server was given must not
+	// change what the next one does.
+	nb := confighttp.NewDefaultServerConfig()
+	nb.Endpoint = "127.0.0.1:0"
+	nb.TLSSetting = nil
+	var nbOpts []confighttp.ToServerOption
+	for _, name := range []string{"gzip", "zstd", "zlib", "snappy", "deflate", "lz4", "x-c16"} {
+		nbOpts = append(nbOpts, confighttp.WithDecoder(name, func(io.ReadCloser) (io.ReadCloser, error) {
+			return io.NopCloser(strings.NewReader("decoded by the neighbour's decoder")), nil
+		}))
+	}
+	if _, err := nb.ToServer(bgCtx, componenttest.NewNopHost(), componenttest.NewNopTelemetrySettings(), http.NotFoundHandler(), nbOpts...); err != nil {
+		return nil, nil, err
 	}
 	s := &server{}
 	srv, err := cfg.ToServer(bgCtx, componenttest.NewNopHost(), componenttest.NewNopTelemetrySettings(), http.HandlerFunc(s.inner))
